@@ -227,12 +227,12 @@ func ZZ_C37_LexInTemplate_LLEN() {
 	zzLexAndCheck(zzWithPrefix("\"\\(", zzNondetBytes(LEN)))
 }
 
-//verif:harness property=C37 mode=bv unwind=40 lens=1..2 thorough_lens=1..2 steps=40000000
+//verif:harness property=C37 mode=bv unwind=40 lens=1..4 thorough_lens=1..5 steps=40000000
 func ZZ_C37_LexInBlockComment_LLEN() {
 	zzLexAndCheck(zzWithPrefix("/*", zzNondetBytes(LEN)))
 }
 
-//verif:harness property=C37 mode=bv unwind=40 lens=1..2 thorough_lens=1..2 steps=40000000
+//verif:harness property=C37 mode=bv unwind=40 lens=1..3 thorough_lens=1..4 steps=40000000
 func ZZ_C37_LexInString_LLEN() {
 	zzLexAndCheck(zzWithPrefix("\"", zzNondetBytes(LEN)))
 }
@@ -245,7 +245,7 @@ func ZZ_C37_LexAfterZero_LLEN() {
 // Characters of 2..4 bytes and invalid bytes: every string of 3 (thorough 4) bytes >= 0x80, alone,
 // in a line comment, in a string and in a block comment.
 //
-//verif:harness property=C37 mode=bv unwind=40 lens=3..3 thorough_lens=3..4 steps=40000000
+//verif:harness property=C37 mode=bv unwind=40 lens=3..5 thorough_lens=3..6 steps=40000000
 func ZZ_C37_LexNonASCII_LLEN() {
 	prefixes := [4]string{"", "//", "\"", "/*"}
 	suffixes := [4]string{"", "\nx", "\" x", "*/x"}
@@ -257,7 +257,7 @@ func ZZ_C37_LexNonASCII_LLEN() {
 	zzLexAndCheck(append(zzWithPrefix(prefixes[k], b), suffixes[k]...))
 }
 
-//verif:harness property=C37 mode=bv unwind=40 tier=thorough lens=1..2 thorough_lens=1..2 steps=40000000
+//verif:harness property=C37 mode=bv unwind=40 lens=1..3 thorough_lens=1..4 steps=40000000
 func ZZ_C37_LexInLineComment_LLEN() {
 	zzLexAndCheck(zzWithPrefix("//", zzNondetBytes(LEN)))
 }
